@@ -86,9 +86,23 @@ def make_file(rng, frames, points, people=1, dims=2, fps=None, ncomps=1, long_na
     return {"header": h, "body": body}
 
 
-def windows_for(rng, F, fps_bits, exhaustive):
+def time_sweep(F, fps):
+    """every frame boundary k/fps (k = 0…F+1) in whole milliseconds, one below and one above, as a start and as an end of a time window:
+    where floor / ceil of time × fps changes value, whatever the frame rate (non-integer rates included)"""
+    ws = []
+    ts = sorted({max(0, int(k * 1000 / fps) + d) for k in range(0, F + 2) for d in (-1, 0, 1, 2)})
+    for t in ts:
+        ws += [{"start_time": t}, {"end_time": t}]
+    for a, b in zip(ts, ts[3:]):
+        ws.append({"start_time": a, "end_time": b})
+    return ws
+
+
+def windows_for(rng, F, fps_bits, exhaustive, sweep=False):
     fps = float(np.array([fps_bits], np.uint32).view(np.float32)[0])
     ws = []
+    if sweep:
+        return time_sweep(F, fps)
     if exhaustive:
         for s in range(0, F + 1):
             for e in list(range(s, F + 2)) + [None]:
@@ -129,6 +143,9 @@ def run(ctx):
     # small files (exhaustive windows): 12-byte frames upward
     for frames, points, people, dims in [(3, 1, 1, 2), (4, 2, 1, 2), (5, 3, 2, 3), (2, 1, 1, 1), (6, 5, 1, 2)][:ctx.pick(4, 5)]:
         files.append((make_file(rng, frames, points, people, dims), True))
+    # time sweeps at frame rates that are not whole numbers (and one that is): every frame boundary in milliseconds
+    for fps_bits in (0x41EFC28F, 0x41480000, 0x41C80000, 0x3FC00000):          # 29.97, 12.5, 25, 1.5
+        files.append((make_file(rng, 7, 2, 1, 2, fps=fps_bits), "sweep"))
     # around the prefetch: total size just below / at / above 10 240 + 100, frame payloads of ~0.1–3 KiB
     for frames, points, people, dims in [(8, 137, 1, 2), (10, 150, 1, 2), (9, 160, 1, 2), (40, 21, 2, 3), (200, 137, 1, 2), (30, 543, 1, 3), (5, 543, 2, 3)][:ctx.pick(5, 7)]:
         files.append((make_file(rng, frames, points, people, dims, ncomps=rng.choice([1, 2])), False))
@@ -160,9 +177,11 @@ def run(ctx):
         hl = header_len(case)
         b = case["body"]
         row = b["people"] * b["points"] * (b["dims"] + 1) * 4
-        ctx.sample({"file_bytes": len(raw), "frames": F, "frame_bytes": row, "header_bytes": hl, "exhaustive_windows": exhaustive})
+        sweep = exhaustive == "sweep"
+        exhaustive = exhaustive is True
+        ctx.sample({"file_bytes": len(raw), "frames": F, "frame_bytes": row, "header_bytes": hl, "exhaustive_windows": exhaustive, "time_sweep": sweep})
         ctx.count("file>prefetch" if len(raw) > 10340 else "file<=prefetch")
-        for w in windows_for(rng, F, b["fps"]["f32"], exhaustive and (F <= 4 or ctx.thorough())):
+        for w in windows_for(rng, F, b["fps"]["f32"], exhaustive and (F <= 4 or ctx.thorough()), sweep):
             for reader in ("bytes", "stream"):
                 caches = [("empty", None), ("same", raw), ("shorter", short_foreign), ("longer", long_foreign), ("near_dims", near_dims), ("near_version", near_version)]
                 if not exhaustive or reader == "bytes":
